@@ -20,7 +20,6 @@ import (
 	"net/http/httptest"
 	"os"
 	"runtime"
-	"runtime/pprof"
 	"sort"
 	"strconv"
 	"strings"
@@ -189,7 +188,7 @@ type offset struct {
 }
 
 func offsets(tol time.Duration, thorough bool) []offset {
-	out := []offset{{"-tol-1ns", -tol - 1}, {"-tol", -tol}, {"0", 0}, {"+tol", tol}, {"+tol+1ns", tol + 1}}
+	out := []offset{{"-tol-1ns", -tol - 1}, {"-tol", -tol}, {"+0", 0}, {"+tol", tol}, {"+tol+1ns", tol + 1}}
 	if thorough {
 		out = append(out, offset{"-tol+1ns", -tol + 1}, offset{"+tol-1ns", tol - 1}, offset{"-1s", -time.Second}, offset{"+1s", time.Second},
 			offset{"-tol-1s", -tol - time.Second}, offset{"+tol+1s", tol + time.Second})
@@ -467,9 +466,14 @@ func (e *env) run(c *reqCase, refAccept bool, allowed []int, nontrivial bool) {
 		n["trivial_base_already_invalid"]++
 	}
 	if v.Kind == "" {
-		if e.sample && nontrivial && (c.Class == "sig:bitflip" || c.Class == "credential-bitflip" || c.Class == "status" || c.Class == "no-credentials" || c.Class == "base") {
+		if e.sample && nontrivial {
+			quota := 1
+			if e.family == "hmac" {
+				quota = 2
+			}
+			ok := e.family != "hmac" || c.Class == "base" || c.Class == "sig:bitflip"
 			flushMu.Lock()
-			take := sampleCount[e.family+c.Class] < 1 && sampleCount[e.family] < 2
+			take := ok && sampleCount[e.family+c.Class] < 1 && sampleCount[e.family] < quota
 			if take {
 				sampleCount[e.family+c.Class]++
 				sampleCount[e.family]++
@@ -636,6 +640,17 @@ type hmacJob struct {
 	pt         point
 	off        offset
 	pairsPart  int // -1: the single-mutation sets; k>=0: part k of the 2-element mutation sets (thorough)
+	body       []byte
+	bodyLabel  string // "" for the 16-byte JSON body
+}
+
+// other bodies of the un-mutated request (thorough tier, inline-secret configurations)
+var otherBodies = []struct {
+	label string
+	b     []byte
+}{
+	{"empty", []byte{}},
+	{"binary32", []byte("\x00\xff\r\n\t {}\x7f\x80\xfe\x01 \n\xc3\xa9\x00\x00=&%2F+\"'\\<>\xf0\x9f\x98\x80\n")},
 }
 
 const (
@@ -652,10 +667,15 @@ func runHMAC(t *testing.T, r *runner.Run, deadline time.Time) {
 		}
 		for _, pt := range cfg.points() {
 			for _, off := range offsets(cfg.Tol, r.Thorough()) {
-				jobs = append(jobs, hmacJob{len(jobs), cfg, cfgs[ci^1], pt, off, -1})
+				jobs = append(jobs, hmacJob{len(jobs), cfg, cfgs[ci^1], pt, off, -1, baseBody, ""})
+				if r.Thorough() && len(cfg.Refs) == 0 {
+					for _, ob := range otherBodies {
+						jobs = append(jobs, hmacJob{len(jobs), cfg, cfgs[ci^1], pt, off, -1, ob.b, ob.label})
+					}
+				}
 				if r.Thorough() && len(cfg.Refs) == 0 && off.D == 0 {
 					for k := 0; k < pairsParts; k++ {
-						jobs = append(jobs, hmacJob{len(jobs), cfg, cfgs[ci^1], pt, off, k})
+						jobs = append(jobs, hmacJob{len(jobs), cfg, cfgs[ci^1], pt, off, k, baseBody, ""})
 					}
 				}
 			}
@@ -709,7 +729,10 @@ func hmacBubble(t *testing.T, r *runner.Run, slot int, j hmacJob) {
 			if len(cfg.Refs) > 0 {
 				e.where = fmt.Sprintf("ts=%s:signer=%s:clock=ts%s", pt.Label, sg.Label, off.Label)
 			}
-			g := &hmacGen{cfg: cfg, other: j.other, sg: sg, S: pt.S, full: r.Thorough(), probe: off.D == 0 && sg.comfortable(pt.S), nonce: freshNonce, pairsPart: j.pairsPart}
+			if j.bodyLabel != "" {
+				e.where += ":body=" + j.bodyLabel
+			}
+			g := &hmacGen{cfg: cfg, other: j.other, sg: sg, S: pt.S, full: r.Thorough(), probe: off.D == 0 && sg.comfortable(pt.S), nonce: freshNonce, pairsPart: j.pairsPart, body: j.body}
 			cases := g.all()
 			now := time.Now()
 			baseValid := hmacAccepts(cfg, cases[0], now)
@@ -1008,6 +1031,9 @@ func runConfigGuards(t *testing.T, r *runner.Run) {
 				r.Add("config_refused", 1)
 				r.Add("ref_rejects", 1)
 				r.Distinct("config:" + g.name + ":refused-at-boot")
+				if g.name == "hmac+basic" {
+					r.Sample(map[string]any{"family": "config", "config": g.name, "class": "refused-at-boot", "route_block": g.route})
+				}
 				return
 			}
 			defer a.Shutdown()
@@ -1105,27 +1131,29 @@ func TestCheck(t *testing.T) {
 		os.Setenv("VERIF_EVIDENCE", scratch+"/replay-evidence.json") // a replay must not overwrite the evidence of the full run
 		r.Finish()
 	}
-	if pf := os.Getenv("C08_CPUPROF"); pf != "" {
-		f, _ := os.Create(pf)
-		pprof.StartCPUProfile(f)
-		defer pprof.StopCPUProfile()
-	}
 	runConfigGuards(t, r)
 	runBasic(t, r)
 	runForward(t, r)
 	runCombined(t, r)
 	runHMAC(t, r, deadline)
 
-	r.Set("rule", "complete finite products, one real request per element through the ingress handler wired by startServers from DSL text: "+
-		"HMAC = {config: secret set x header names} x {signed timestamp: every validity-window end-point -1/0/+1 s} x {signer: every configured secret} x "+
-		"{clock - signed ts: -tol-1ns,-tol,0,+tol,+tol+1ns} x {every mutation of the valid request: each header absent/empty/blank, every single-bit flip and every hex substitution of the 64 signature characters, every proper prefix/suffix, encodings, other string-to-sign layouts, every single-character edit of the timestamp, re-signed odd timestamps, every single-bit flip of the 16 body bytes, path and method variants}; "+
-		"Basic = 2 users x credential mutations (every password prefix, every single-bit flip, malformed base64, schemes); forward = every status 100..599 + transport errors + hang on 2 routes; config = auth mixes/empty secrets/colliding headers/non-positive tolerance. "+
-		"A case is distinct by (family, mutation class, signed-ts point, signer, clock offset, reference verdict, observed status); non-trivial = the un-mutated request is valid at that clock (the mutation decides) or the case is the un-mutated request itself (clock / validity window decides)")
+	r.Set("rule", "complete finite products, one real request per element through the ingress handler wired by startServers from DSL text. "+
+		"HMAC = {secret set: 1 inline | 2 overlapping secret_ref versions | inline+version (thorough: 3 adjacent versions with an open end, 1 s tolerance)} x {header names: default | custom} x "+
+		"{signed timestamp: every validity-window end-point -1/0/+1 s} x {signer: every configured secret} x {clock - signed ts: -tol-1ns,-tol,0,+tol,+tol+1ns (thorough: 6 more)} x "+
+		"{every mutation of the valid request: each of the 3 headers absent/empty/blank/renamed/duplicated, every single-bit flip and every hex substitution of the 64 signature characters, every proper prefix and suffix, "+
+		"other encodings/keys/string-to-sign layouts, every single-character substitution/insertion/deletion of the timestamp over a 15-symbol alphabet, re-signed odd timestamps (sign, zeros, +-1 s, int64 and duration wrap-around), "+
+		"every single-bit flip of the 16 body bytes and length edits, 28 path and 13 method variants; thorough: every PAIR of bit flips in signature and body, and the whole set again for an empty and a 32-byte binary body}. "+
+		"Basic = 2 users x {every password prefix/suffix, every single-bit flip of user:password, every base64 character deletion, malformed base64, schemes, unknown users}. "+
+		"Forward = {every status 100..599, 4 transport errors, hang until the timeout} x 2 routes. Combined = 4 routes with 4 authenticators x every subset of 6 credential kinds. "+
+		"Config = auth mixes, empty secrets, colliding header names, non-positive tolerance must be refused at boot or still reject. "+
+		"A case is distinct by (family, mutation class, signed-ts point, signer, clock offset, reference verdict, observed status); non-trivial = the un-mutated request is valid at that clock "+
+		"(the mutation decides) or the case is the un-mutated request itself (clock / validity window decides)")
 	r.Assume("the virtual clock of testing/synctest is the clock the application reads (ingress.HMACAuth.Now = time.Now)")
-	r.Assume("requests are handed to the ingress http.Handler directly (http.ReadRequest + httptest recorder); TLS, net/http's own 400 answers and header-size limits of http.Server are not part of the check")
-	r.Assume("memory queue backend; replay protection (C09) is kept out of the way by a fresh nonce per request")
+	r.Assume("requests are handed to the ingress http.Handler directly (http.ReadRequest + httptest recorder); requests net/http itself refuses (control bytes in header values: counted in not_http_parseable), TLS and http.Server limits are not part of the check")
+	r.Assume("memory queue backend, observed through Store.Stats and Store.ListMessages (what GET /messages serves); replay protection (C09) is kept out of the way by a fresh nonce per request; the application is re-booted every 400 requests")
 	r.Assume("forward auth through an injected in-memory RoundTripper; redirects by the auth service and stalls after a 2xx header are not enumerated (the statement is silent about them)")
-	pprof.StopCPUProfile()
+	r.Assume("requests that do not address the route (other method, letter-case variants of the path) may also be answered 404/405; 413/429 paths (body limit, rate limit) are not provoked")
+	r.Assume("reference is the most permissive reading where the statement leaves a choice (hex letter case, white space around header values, duplicate headers, percent-encoding, sign/leading zeros of the timestamp, tolerance boundary inclusive); completeness is only demanded for the unmodified request at clock = signed ts with the signing secret valid at ts-1..ts+1")
 	if os.Getenv("C08_DEBUG") != "" {
 		var ks []string
 		for k, n := range classCount {
@@ -1134,6 +1162,5 @@ func TestCheck(t *testing.T) {
 		sort.Strings(ks)
 		fmt.Println(strings.Join(ks, "\n"))
 	}
-	r.Assume("reference is the most permissive reading where the statement leaves a choice (hex letter case, OWS, duplicate headers, percent-encoding, sign/leading zeros of the timestamp, tolerance boundary inclusive)")
 	r.Finish()
 }
